@@ -24,6 +24,14 @@ REQS = {
     "notif10": {"id": "null", "method": "m:echo", "params": "args1"},
     "invalid20": {"jsonrpc": "v2", "id": "int", "params": "args1"},
     "invalid10": {"id": "int", "method": "m:echo", "params": "int"},
+    # the member is present (whatever its value): the server's own form
+    "marker_null20": {"jsonrpc": "null", "id": "int", "method": "m:echo", "params": "args1"},
+    "marker_estr20": {"jsonrpc": "estr", "id": "int", "method": "m:boom", "params": "args1"},
+    "marker_zero20": {"jsonrpc": "zero", "id": "int", "method": "m:echo", "params": "args1"},
+    "marker_false20": {"jsonrpc": "false", "id": "str", "method": "m:nosuch", "params": "args1"},
+    # parameters translated into objects of an importable class: nothing may be cached in the Config
+    "bean20": {"jsonrpc": "v2", "id": "int", "method": "m:echo", "params": "bean"},
+    "bean10": {"id": "int", "method": "m:echo", "params": "bean"},
 }
 
 
@@ -61,12 +69,15 @@ def obligations(tier, H):
     # ---- (a) form of each reply + (c) no writes --------------------------------------
     for cfg in configs:
         for name in REQS:
-            if cfg.get("jsonclass") is False and "badconv" in name:
-                continue  # a failing *conversion* needs class translation on
+            if cfg.get("jsonclass") is False and ("badconv" in name or "bean" in name):
+                continue  # a failing *conversion* / bean parameters need class translation on
             spec, leaves = req(name, "")
             add(dict(cfg, request=spec, case=[name]), leaves)
         for combo in itertools.product(sorted(REQS), repeat=2):
-            if cfg.get("jsonclass") is False and "badconv" in "".join(combo):
+            special = [c for c in combo if c.startswith("marker_") or c.startswith("bean")]
+            if special and (len(special) == 2 or not any(c in ("call20", "call10") for c in combo)):
+                continue  # the added request kinds are paired with plain calls only
+            if cfg.get("jsonclass") is False and ("badconv" in "".join(combo) or "bean" in "".join(combo)):
                 continue
             if not thorough and cfg != configs[0] and cfg != configs[1] and combo[0][-2:] == combo[1][-2:]:
                 continue
@@ -82,9 +93,12 @@ def obligations(tier, H):
     hist = sorted(REQS) + ["batch:call10+call20", "batch:notif20+raise10", "nd_int"]
     for cfg in (configs if thorough else configs[:4]):
         for a, b in itertools.product(hist, repeat=2):
+            special = [c for c in (a, b) if c.startswith("marker_") or c.startswith("bean")]
+            if special and (len(special) == 2 or not any(c in ("call20", "call10") for c in (a, b))):
+                continue
             if not thorough and cfg != configs[0] and not (a.endswith("10") or a.startswith("batch")):
                 continue
-            if cfg.get("jsonclass") is False and "badconv" in a + b:
+            if cfg.get("jsonclass") is False and ("badconv" in a + b or "bean" in a + b):
                 continue
             s1, l1 = req(a, "r1")
             s2, l2 = req(b, "r2")
